@@ -18,11 +18,11 @@ class Profile:
 
 BASIC = Profile(new=10, edit_refresh=10, push=10, pop=10, goto=6, float=6, sink=6, delete=4, hide=3, unhide=3,
                 rename=3, commit=3, uncommit=2, clean=2, undo=5, redo=3, reset=2, inspect=2, repair=1,
-                gcommit=1, greset=1, gamend=1, spill=1, logclear=0.3, invalid=4, edit_msg=3, rebase=1.5, hidden_ops=2, squash=2.5, pick=2.5, reset_deleted=1, uncommit_auto=1, uncommit_collide=0.7, gconfig=0.5)
+                gcommit=1, greset=1, gamend=1, spill=1, logclear=0.3, invalid=4, edit_msg=3, rebase=1.5, hidden_ops=2, squash=2.5, pick=2.5, reset_deleted=1, uncommit_auto=1, uncommit_collide=0.7, gconfig=0.5, refresh_p=3)
 REORDER = Profile(new=6, edit_refresh=8, push=14, pop=12, goto=8, float=10, sink=10, delete=5, hide=4, unhide=4,
-                  commit=4, rename=1, undo=2, invalid=2, upstream=3, edit_msg=3, rebase=2, hidden_ops=3, conflict_reorder=3, sink_mixed=4, squash=4, pick=2)
+                  commit=4, rename=1, undo=2, invalid=2, upstream=3, edit_msg=3, rebase=2, hidden_ops=3, conflict_reorder=3, sink_mixed=4, squash=4, pick=2, refresh_p=4)
 UNDO = Profile(new=6, edit_refresh=6, push=8, pop=8, float=3, sink=3, delete=3, hide=2, unhide=2, rename=2,
-               undo=14, redo=10, reset=6, gcommit=1.5, commit=1, invalid=1, extmods=2, edit_msg=3, rebase=1, redo_chain=3, extmods_fail=2, pick=2, reset_deleted=3)
+               undo=14, redo=10, reset=6, gcommit=1.5, commit=1, invalid=1, extmods=2, edit_msg=3, rebase=1, redo_chain=3, extmods_fail=2, pick=2, reset_deleted=3, refresh_p=2)
 REPAIR = Profile(new=8, edit_refresh=8, push=5, pop=6, delete=2, hide=2, repair=10, gcommit=8, gamend=4, greset=9,
                  gmerge=1, undo=1, commit=1, uncommit=1, inspect=1, twin_commits=3, repair_from_empty=3, extmods_fail=4, reset=2)
 COMMIT = Profile(new=10, edit_refresh=8, push=6, pop=6, commit=12, uncommit=10, float=3, sink=3, undo=3, redo=2,
@@ -35,7 +35,7 @@ NEXT = Profile(new=10, edit_refresh=8, push=6, pop=6, commit=8, uncommit=4, unco
 # conflicts with stgit.push.allow-conflicts switched off and on
 NOCONF = Profile(new=6, edit_refresh=8, push=10, pop=12, goto=6, float=10, sink=10, delete=5, commit=5, undo=3,
                  edit_msg=3, rebase=3, squash=4, pick=4, reset=2, reset_deleted=2, conflict_reorder=6, sink_mixed=3,
-                 gconfig=3, clean=1, hide=2, unhide=1)
+                 gconfig=3, clean=1, hide=2, unhide=1, refresh_p=4)
 BIG = Profile(new=30, edit_refresh=6, push=6, pop=10, hide=8, unhide=3, delete=2, float=3, sink=3, undo=3, redo=1,
               rename=2, big_clear=2)
 
@@ -156,7 +156,7 @@ class Chooser:
             # repository; the clean model has no such operation: no macro that edits runs now)
             kinds = [(k, w) for k, w in kinds if k not in ("edit_refresh", "dirty_edit", "gcommit", "gamend", "gmerge",
                                                             "greset", "upstream", "extmods", "twin_commits",
-                                                            "conflict_reorder", "repair_from_empty", "extmods_fail")]
+                                                            "conflict_reorder", "repair_from_empty", "extmods_fail", "refresh_p")]
         total = sum(w for _, w in kinds)
         x = rng.random() * total
         for kind, w in kinds:
@@ -358,6 +358,17 @@ class Chooser:
             seq.append({"c": "inspect", "argv": ["series", "-a"]})
             self.pending = seq[1:]
             return seq[0]
+        if kind == "refresh_p":
+            # a work-tree change absorbed into a patch that is not the top one (applied below the
+            # top, unapplied, occasionally hidden = refused)
+            pool = A[:-1] + U if rng.random() < 0.92 or not H else H
+            if not pool or not A:
+                return {"c": "new", "name": self.fresh_name(view), "meta": self.next_meta()}
+            self.pending = [{"c": "refresh", "patch": rng.choice(pool)}]
+            if rng.random() < 0.5 and not self.single_cells_only:
+                # a hot cell: the patches above (or the unapplied target) are likely to touch it too
+                return {"c": "gedit", "cell": rng.randrange(0, 3), "v": rng.randint(1, 4)}
+            return self.edit_cmd(view)
         if kind == "uncommit_auto":
             if rng.random() < 0.5:
                 return {"c": "uncommit", "n": rng.choice([1, 1, 2, max(1, view.get("below_base", 1)), 3]), "names": []}
